@@ -16,7 +16,8 @@ claim("C07", "generated-input search: round-trip + exact-value oracle (CPython d
 claim("C01", "generated-input search: typed grammar-directed expression generator vs a reference FEEL evaluator (differential) + scope-shape metamorphic relation",
       "Exploration: tens of thousands of generated core-fragment expressions (every construct nested in the others to depth 4, depth 5 in the "
       "thorough tier) over generated bindings are evaluated by the SUT and by an independent reference evaluator written from DMN 1.3; "
-      "results compared structurally, numbers numerically; the same text in a differently shaped scope must give the same value.",
+      "results compared structurally, numbers numerically; the same text in a differently shaped scope must give the same value. Generated "
+      "dimensions include closures, well-founded recursion, arity errors and bindings named like built-in functions.",
       "Trusts the reference evaluator pbt/oracles/feel.py; cases the DMN text does not decide are generated but only checked for scope "
       "invariance (counted as 'unspecified'). Open findings are tolerated only when the reference with exactly that deviation switched "
       "on predicts the SUT's value.")
@@ -30,7 +31,9 @@ claim("C13", "generated-input search over evaluation histories (op sequences + i
 
 claim("C10", "generated-input search: name-set generator with prefix families and operator-joined combinations; oracle = longest-bound-match rule + reference evaluator over primes",
       "Exploration: tens of thousands of (name set, expression template, spelling) triples; every bound name is a distinct prime so the "
-      "result identifies which names were resolved; expected value computed from the statement's longest-match rule.",
+      "result identifies which names were resolved; expected value computed from the statement's longest-match rule. Further bound names "
+      "hold values of other shapes (bystanders), entries of bound contexts are reached by path, names are reused after the construct "
+      "that introduced them.",
       "Names are bound through public constructors (never through the lexer). Declaration sites (context keys, parameters) whose name has a "
       "bound prefix, and texts where the longest bound name ends inside an intended operand, are generated but not asserted (the "
       "statement does not decide them); counted in evidence classes.")
@@ -38,7 +41,8 @@ claim("C10", "generated-input search: name-set generator with prefix families an
 claim("C16", "exhaustive enumeration of the depth-1 type universe (1261 types: all pairs cell by cell against reference relations, all triples by boolean matrix algebra) + generated depth-2 families and coercion cases",
       "Exploration with exhaustive sub-spaces: every ordered pair of the 1261-type universe is compared with reference relations written from "
       "the statement and every ordered triple is checked for transitivity (M.M <= M on the SUT's own matrices); depth-2 types, coercion "
-      "(value itself / wrap / unwrap / null, conforms-or-null, idempotence) and parameter coercion through FEEL invocations are sampled.",
+      "(value itself / wrap / unwrap / null, conforms-or-null, idempotence), parameter coercion through FEEL invocations and result coercion "
+      "of functions with a declared result type (0..2 parameters, positional and named) are sampled.",
       "Trusts the reference relations in pbt/oracles/types_ref.py and numpy's integer matrix product; depth 2 is sampled, not exhaustive.")
 
 claim("C17", "state-space enumeration over observed workspace snapshots (all histories up to length 6) + generated long histories with shrinking, against a reference workspace model",
@@ -60,7 +64,8 @@ claim("C06", "exhaustive enumeration of ordered operator pairs (triples in the t
 claim("C14", "enumerated literal spaces (every whole-minute offset, every zone id known to both tz databases, month x day validity grid, fraction digit patterns, duration field grid, single-character corruptions) + generated literals; oracle: independent lexical grammar/value model, component comparison in integer nanoseconds, print/read-back round trip",
       "Exploration with exhaustive sub-spaces (offsets by whole minutes, zone identifiers, calendar validity grid): every literal goes "
       "through date()/time()/date and time()/duration(), @-literals and the xsd constructors; the value's components, its text and the "
-      "re-read value are compared with a reference model; corrupted literals must be null.",
+      "re-read value are compared with a reference model; corrupted literals must be null. Part zone-twins: a zoned literal equals the same "
+      "instant written in UTC and with the numeric offset, in both operand orders, also within hours of a switch.",
       "Trusts pbt/oracles/temporal_cal.py (self-tested against CPython datetime inside 1..9999) and the intersection of the zone databases of "
       "chrono-tz 0.6.3 and system tzdata. Forms on which XSD/FEEL are silent are labelled unspecified and only round-tripped.")
 
@@ -81,7 +86,9 @@ claim("C08", "generated argument tuples per built-in (39 functions) + exhaustive
 claim("C02", "boundary-alphabet grid (every operation x every tuple of a 72-value alphabet) + generated/constructed operand tuples (ties at digit 35, cancellation, range edges), differential against CPython decimal configured as decimal128 and exact rationals",
       "Exploration with an exhaustive grid: every arithmetic operator, comparison and numeric built-in on boundary tuples and tens of "
       "thousands of constructed tuples, through the FeelNumber API and through FEEL; correctly rounded results must match digit for digit, "
-      "exp/log/inexact powers within 2 ulp, undefined or out-of-range results must be null, Infinity/NaN are never accepted.",
+      "exp/log/inexact powers within 2 ulp, undefined or out-of-range results must be null, Infinity/NaN are never accepted. Constructed "
+      "shapes include integer powers beyond the range edges and operands built from base-10^9 units drawn from a dictionary harvested from "
+      "the numeric constants of the C sources (dividend = prefix of the divisor).",
       "Trusts libmpdec (CPython decimal) as an independent decimal128 implementation and fractions.Fraction for exact references.")
 
 claim("C09", "exhaustive enumeration of ordered pairs (48x48) and per-kind triples of a value alphabet + generated pairs/triples; algebraic laws between observed results (no external oracle)",
@@ -92,14 +99,16 @@ claim("C09", "exhaustive enumeration of ordered pairs (48x48) and per-kind tripl
 claim("C05", "generated-input search over five sources (mutations/truncations of every FEEL text harvested from the repository's tests, arbitrary Unicode, argument sweeps of all built-ins, nesting ramps, entry points x parsing scopes) on both builds + coverage-guided libFuzzer campaign (thorough); validity predicate oracle",
       "Exploration: hundreds of thousands of requests per run on the overflow-checked and the release build; a panic record, process "
       "death or a confirmed hang is a violation; the thorough tier adds a libFuzzer campaign on the feel_any target seeded with the "
-      "harvested texts.",
+      "harvested texts. Part local-zone runs driver processes whose TZ is a zone with daylight-saving time (zone-less values take the "
+      "process's local offset).",
       "A timeout counts only after three isolated re-runs with a 10x CPU-time budget (else exit 2). Open findings are matched by panic "
       "file + statement text, so line shifts do not create false alarms.")
 
 claim("C03", "exhaustive grid of small tables (every subset of matching rules x every hit policy) + generated tables with input tuples derived from the table's own boundary points; differential against a reference decision-table evaluator and XML-vs-drawn-text differential",
       "Exploration with an exhaustive grid: the match pattern (none/one/several equal/several different/all) is chosen by construction; every "
       "table is evaluated through DMN XML and (when drawable) through recognised box-drawing text, both compared with an independent "
-      "reference evaluator with its own unary-test evaluator.",
+      "reference evaluator with its own unary-test evaluator. Input columns: numbers, strings, booleans, dates, times and date-times with "
+      "milliseconds, both duration kinds.",
       "Trusts pbt/oracles/dtable_ref.py. Null inputs, inputs outside allowed values, defaults with several outputs and aggregators over "
       "non-numbers are labelled unspecified (totality/repeatability/path agreement only).")
 
@@ -112,13 +121,14 @@ claim("C19", "generated drawings (renderer for both orientations and all optiona
 claim("C04", "generated acyclic requirement graphs (forced shape classes) evaluated against a reference DRG evaluator (differential) + metamorphic relation: entries outside the requirement closure do not change the result",
       "Exploration: thousands of generated models (inputs, decisions of every boxed kind, knowledge models, decision services) x every "
       "invocable x 3 inputs compared with a topological reference evaluation; the same invocation with extra unrelated entries must be "
-      "identical.",
+      "identical. Services and decisions with typed variables, boxed invocations with an omitted binding.",
       "Trusts pbt/oracles/drg_ref.py + the reference FEEL evaluator. Inputs that shadow a required decision/BKM are generated and labelled, "
       "not asserted (the TCK demands override for service input decisions).")
 
 claim("C11", "generated item-definition trees (depth <= 3) with conforming values and values violating exactly one position; reference conformance/coercion from the statement",
       "Exploration: tens of thousands of item-definition trees used as input and output types; echo decisions show what reached the logic; "
-      "typed output variables of decisions, knowledge models and services show the coercion.",
+      "typed output variables of decisions, knowledge models (invoked directly, by boxed invocation and by literal call) and decision "
+      "services (one and several output decisions) show the coercion.",
       "Trusts pbt/oracles/itemdef_ref.py (+ C16's reference coercion). Extra context entries, allowed values on referencing definitions and "
       "on outputs are labelled and not asserted.")
 
@@ -126,7 +136,8 @@ claim("C12", "fault enumeration: every single structural fault (18 fault classes
       "Fault enumeration: the quick tier enumerates all single faults of a seed-rotated subset of the 150 shipped models and of "
       "generated models completely (per-class counts in the evidence), the thorough tier all single faults of all files; every probe "
       "parses, builds and evaluates every invocable with an empty, a typical and a wrong-typed input; a panic, a confirmed process "
-      "death or a confirmed hang is a violation.",
+      "death or a confirmed hang is a violation. Part graph-shape loads valid models with long chains and wide lattices of requirements / "
+      "type references.",
       "A death is confirmed alone in a fresh driver, a hang by 3 isolated re-runs (else exit 2). Panic signatures are keyed on crate path, "
       "enclosing function and statement text so that line shifts do not create false alarms.",
       level="fault_enumeration")
@@ -142,7 +153,8 @@ claim("C18", "generated request histories against the real service (definitions 
 claim("C20", "generated thread plans (2..16 threads x 20..200 calls, barrier/yield/spin/skew/pinning perturbation) on one shared evaluator compared call by call with the sequential results; deadlock watchdog with 3 re-runs; ThreadSanitizer build of the same workload in the thorough tier",
       "Exploration of schedules by repeated perturbed runs: every concurrent result must equal the sequential result of the same call, "
       "the sequential pass afterwards must be unchanged (no poisoned lock), all threads must join before the watchdog; the thorough "
-      "tier additionally runs the workload under ThreadSanitizer, where a reported data race is a violation even when values are right.",
+      "tier additionally runs the workload under ThreadSanitizer, where a reported data race is a violation even when values are right. "
+      "Part first-use: all threads make the first evaluations of one invocable of a freshly built evaluator together (thousands of rounds).",
       "This family does not own the scheduler: interleavings are sampled, not enumerated. First-use races of lazily initialised "
       "globals are exercised by the `cold` part (fresh process, sequential pass after the threads), a few dozen starts per quick run. If the sanitizer build cannot be produced the "
       "evidence says so and no violation is raised for tooling.")
